@@ -298,8 +298,7 @@ class AsyncRunnerTemplate(BaseRunner, ABC):
         )
         start_time = time.time()
 
-        existing_limiter = self._get_concurrency_limiter()
-        token = self._set_concurrency_limiter(max_concurrency) if existing_limiter is None and max_concurrency is not None else None
+        token = None
 
         async def _run_map_item(variation_inputs: dict[str, Any]) -> RunResult:
             """Execute one map variation, always returning RunResult."""
@@ -327,6 +326,12 @@ class AsyncRunnerTemplate(BaseRunner, ABC):
                 )
 
         try:
+            # Install the shared limiter inside the try so that a failure here
+            # (e.g. an invalid max_concurrency) still closes the map span
+            existing_limiter = self._get_concurrency_limiter()
+            if existing_limiter is None and max_concurrency is not None:
+                token = self._set_concurrency_limiter(max_concurrency)
+
             if max_concurrency is None:
                 tasks = [_run_map_item(v) for v in input_variations]
                 gathered = await asyncio.gather(*tasks, return_exceptions=True)
